@@ -21,7 +21,9 @@ repairs D4 / D9 of the replication core as far as they touch these functions):
  D22: with a user serializer the enabled version is stored next to the internal dump data and restored;
  D9: an exception from `_idToMethod[funcID](...)` - here: `KeyError` for an unknown id - is logged and becomes the
      result of the command; the entry counts as applied and the batch goes on;
- D61: loading a dump answers the callbacks of the commands it covers with `(None, LEADER_CHANGED)`.
+ D61: loading a dump answers the callbacks of the commands it covers with `(None, LEADER_CHANGED)`;
+ D71: a VERSION entry below the enabled version changes nothing (the enabled version never goes down), its
+      result is the refusal.
 
 Names are lists of Unicode code points (`List Nat`) ordered like Python `str`; versions are `Nat`
 (`ver=` is passed through `int()`; negative versions are outside the property and outside the model).
@@ -173,6 +175,9 @@ inductive Res where
   | value (d : Desc) (arg : Nat)
   /-- the `KeyError(funcID)` from `_idToMethod[funcID]`, caught and RETURNED as the result (repair D9) -/
   | keyError (fid : Nat)
+  /-- `Exception('wrong version, enabled version is <enabled>, requested version is <req>')` returned for a VERSION
+  entry below the enabled version (repair D71) -/
+  | lowerVersion (enabled req : Nat)
 deriving DecidableEq, Repr, Inhabited
 
 inductive Ev where
@@ -223,6 +228,11 @@ def applyEntry (n : Node) (e : Entry) : Node × List Ev × Bool :=
     if selfCodeVersion n.cls < v then
       -- WrongVer: logged, subscribers kept (the entry is retried on the next tick), batch stops (D10)
       (n, [Ev.wrongVer (selfCodeVersion n.cls) v], false)
+    else if v < n.enabled then
+      -- repair D71: `setCodeVersion` only sees the version applied so far on the requester, so a lower request can
+      -- follow a higher one in the log; the enabled version never goes down: no switch, no table rebuild, no hook,
+      -- the refusal is the command's result; the entry is consumed like any other
+      done n [] (.lowerVersion n.enabled v)
     else
       -- statement order of `__doApplyCommand`: enabled version, then the name table, then the user's hook
       let n1 := { n with enabled := v }            -- self.__enabledCodeVersion = ver
